@@ -80,6 +80,22 @@ func c17Events(thorough bool) []Ev {
 		}
 		return vtypes.NewMsgSendToVestingAccount(harness.AddrS("A"), to, "g", sdk.NewInt(8), false), "A"
 	}})
+	// the first account created in a history (R1) locks its free coins in an ordinary pool of its own and
+	// sends from it: whatever R1's own lineage, an account out of a non-genesis pool is not genesis-derived
+	evs = append(evs,
+		Ev{Name: "pool(R1,own,2)", Build: func(v View) (sdk.Msg, string) {
+			if v.App.AccountKeeper.GetAccount(v.Ctx, harness.Addr("R1")) == nil {
+				return nil, ""
+			}
+			return vtypes.NewMsgCreateVestingPool(harness.AddrS("R1"), "own", sdk.NewInt(2), 100*time.Second, "t"), "R1"
+		}},
+		Ev{Name: "send(R1.own,1->fresh)", Build: func(v View) (sdk.Msg, string) {
+			_, to := freshAddr(v)
+			if to == "" || v.App.AccountKeeper.GetAccount(v.Ctx, harness.Addr("R1")) == nil {
+				return nil, ""
+			}
+			return vtypes.NewMsgSendToVestingAccount(harness.AddrS("R1"), to, "own", sdk.NewInt(1), true), "R1"
+		}})
 	srcs := []string{"GA", "NA", "UA", "R1", "R2"}
 	if thorough {
 		srcs = append(srcs, "R3", "R4")
@@ -141,7 +157,7 @@ func c17Step(si *StepInfo) (interface{}, []*explore.Violation) {
 	n := l.clone()
 	switch m := si.Msg.(type) {
 	case *vtypes.MsgSendToVestingAccount:
-		n[m.ToAddress] = m.VestingPoolName == "g" || m.VestingPoolName == "g2"
+		n[m.ToAddress] = m.Owner == harness.AddrS("A") && (m.VestingPoolName == "g" || m.VestingPoolName == "g2")
 	case *vtypes.MsgSplitVesting:
 		if d, traced := l[m.FromAddress]; traced {
 			n[m.ToAddress] = d
